@@ -439,10 +439,21 @@ func runReplay(pc *PropConfig, id, replayFile string) (string, bool) {
 	cmd.Env = append(os.Environ(), "GOVC_REPLAY_FILE="+replayFile, "GOFLAGS=-mod=mod", "GOPROXY=off", "GOSUMDB=off", "GOTOOLCHAIN=local")
 	out, _ := cmd.CombinedOutput()
 	s := string(out)
+	reproduced := strings.Contains(s, "REPLAY: reproduced")
+	// the harness's own lines first (the code under test may log a lot), then the rest
+	var own, rest []string
+	for _, l := range strings.Split(s, "\n") {
+		if strings.HasPrefix(l, "REPLAY:") || strings.HasPrefix(l, "CONFORMANCE:") || strings.HasPrefix(l, "--- ") || strings.HasPrefix(l, "FAIL") || strings.HasPrefix(l, "ok ") || strings.HasPrefix(l, "panic:") {
+			own = append(own, l)
+		} else {
+			rest = append(rest, l)
+		}
+	}
+	s = strings.Join(append(own, rest...), "\n")
 	if len(s) > 6000 {
 		s = s[:6000]
 	}
-	return s, strings.Contains(s, "REPLAY: reproduced")
+	return s, reproduced
 }
 
 // funcTimeout: a contract may ask for a larger per-obligation budget (`opt timeout=<ms>`) when its
